@@ -1,10 +1,13 @@
 (* C11 - sniffed charset is truthful for undeclared text.
-   PARTIAL in this revision: proved are the BOM clause and the windows-1252 / iso-8859-1 split for every
-   byte string; the two UTF-8 clauses (utf-8 only if valid up to a truncated final sequence; always for
-   such text that is ASCII-only or has a complete non-ASCII character) are decided on the implementation
-   by the extracted specification predicate c11_judge, exhaustively over a 23-symbol byte-class alphabet. *)
+   Proved for every byte string: the BOM clause, both UTF-8 clauses (utf-8 only if the bytes are valid UTF-8
+   apart from a multi-byte sequence cut off at the very end; always for such text that is ASCII text only or
+   has a complete non-ASCII character), and the windows-1252 / iso-8859-1 split.  "Valid UTF-8" is
+   Unicode Table 3-7 as written in Spec/SpecCharset.v (well_formed), shown equal to the model of utf8.Valid.
+   The tie to charset.FromPlain / utf8.Valid / utf8.FullRune in Go is the c11 correspondence channel
+   (exhaustive over a 23-symbol byte-class alphabet) with c11_judge judging the implementation directly. *)
 From Verif Require Import Base.Bytes Model.Text Model.Charset Gen.Tables Spec.SpecText Spec.SpecCharset
-  Proofs.DetectP Proofs.CharsetP.
+  Proofs.DetectP Proofs.CharsetP Proofs.Utf8P.
+From Coq Require Import Lia.
 
 Theorem C11_bom_table_is_spec : boms = spec_boms.
 Proof. exact ob_boms. Qed.
@@ -28,6 +31,47 @@ Theorem C11_text_chars_table :
   forallb (fun c => Bool.eqb (ascii_text c) ((nth (N.to_nat c) text_chars 0 =? tc_T)%N && (c <? 128)%N)) (map N.of_nat (seq 0 256)) = true.
 Proof. vm_compute. split; reflexivity. Qed.
 Print Assumptions C11_text_chars_table.
+
+(* the table obligation, for every byte value *)
+Lemma C11_table_all : forall c : N, ascii_text c = ((Charset.tc text_chars c =? tc_T) && (c <? 128))%N.
+Proof.
+  intros c. destruct (N.ltb_spec c 128) as [Hlt|Hge].
+  - destruct C11_text_chars_table as [_ Hall]. rewrite forallb_forall in Hall.
+    specialize (Hall c). rewrite andb_true_r.
+    assert (Hin : In c (map N.of_nat (seq 0 256))).
+    { apply in_map_iff. exists (N.to_nat c). split; [apply Nnat.N2Nat.id|]. apply in_seq. lia. }
+    specialize (Hall Hin). apply Bool.eqb_prop in Hall. rewrite Hall.
+    unfold Charset.tc. replace (c <? 128)%N with true by (symmetry; apply N.ltb_lt; exact Hlt). rewrite andb_true_r. reflexivity.
+  - rewrite andb_false_r. unfold ascii_text, inr.
+    replace (c <=? 13)%N with false by (symmetry; apply N.leb_gt; lia).
+    replace (c =? 27)%N with false by (symmetry; apply N.eqb_neq; lia).
+    replace (c <=? 126)%N with false by (symmetry; apply N.leb_gt; lia).
+    rewrite !andb_false_r. reflexivity.
+Qed.
+Print Assumptions C11_table_all.
+
+(* well-formedness of the specification = the model of utf8.Valid, for every byte string *)
+Theorem C11_valid_is_table_3_7 : forall l, well_formed l = utf8_valid l.
+Proof. exact well_formed_valid. Qed.
+Print Assumptions C11_valid_is_table_3_7.
+
+Theorem C11_utf8_only_if :
+  forall s, from_bom spec_boms s = [] ->
+    from_plain spec_boms text_chars tc_T tc_I true s = b "utf-8" -> up_to_trunc s = true.
+Proof. exact (utf8_only_if text_chars tc_T tc_I C11_table_all). Qed.
+Print Assumptions C11_utf8_only_if.
+
+Theorem C11_utf8_if :
+  forall s, s <> [] -> from_bom spec_boms s = [] ->
+    (all_ascii_text s = true \/ has_complete_non_ascii s = true) ->
+    from_plain spec_boms text_chars tc_T tc_I true s = b "utf-8".
+Proof. exact (utf8_if text_chars tc_T tc_I C11_table_all). Qed.
+Print Assumptions C11_utf8_if.
+
+(* non-vacuity: a text with a complete non-ASCII character cut inside the next one *)
+Example C11_cut_inside : has_complete_non_ascii [99;195;169;226;130]%N = true /\ up_to_trunc [99;195;169;226;130]%N = true /\
+  from_plain boms text_chars tc_T tc_I true [99;195;169;226;130]%N = b "utf-8".
+Proof. vm_compute. repeat split. Qed.
 
 Example C11_cafe : from_plain boms text_chars tc_T tc_I true [99;97;102;195;169]%N = b "utf-8". Proof. vm_compute. reflexivity. Qed.
 Example C11_nel : from_plain boms text_chars tc_T tc_I true [87;97;105;116;133]%N = b "windows-1252". Proof. vm_compute. reflexivity. Qed.
